@@ -1,16 +1,21 @@
 import FluentVerif.Gen.Client
-/-! # The sending methods of the TCP client are what the source says now
+/-! # The methods of the TCP client are what the source says now
 
-`Gen/Client.lean` holds the bodies of `Client.Send`, `Client.SendRaw`, `Client.checkAck` and `writeAll` as regenerated from
-/repo's working tree on every run (`translator/client.go`).  Running them (`Sk.Cl.runC`) on any client state, under any
-configuration and any behaviour of the peer and the network, gives exactly the result and the events of the sequential client
-model's `send` / `sendRaw` (`Client/Tcp.lean`) — the definitions C04, C06, C08, C09 are proved about. -/
+`Gen/Client.lean` holds the bodies of `Client.Send`, `SendRaw`, `checkAck`, `writeAll`, `Connect`, `Disconnect`, `Reconnect`,
+`connect`, `disconnect`, `TransportPhase` and `Handshake` as regenerated from /repo's working tree on every run
+(`translator/client.go`).  Running them (`Sk.Cl.runC`) on any client state, under any configuration and any behaviour of the
+peer, the factory and the network, gives exactly the result and the events of the sequential client model's `step`
+(`Client/Tcp.lean`) — the definitions C04, C05, C06, C08, C09, C10, C14 are proved about. -/
 namespace FV.Tie
 open FV FV.Tcp FV.Sk.Cl FV.Gen.Client
 
-/-- `checkAck`, as the regenerated body computes it -/
-def checkAckSem (cfg : Cfg) (i : In) : L → R :=
-  fun l => cexecs cfg i (fun l => (l.st, .panic)) Client_checkAck (fun l => (l.st, .panic)) l
+variable (H : Bytes → Bytes)
+
+/-- the methods the bodies call, computed from their own regenerated bodies -/
+def callees (cfg : Cfg) (i : In) : Callees where
+  checkAck := fun l => cexecs H cfg i {} Client_checkAck (fun l => (l.st, .panic)) l
+  connect := fun l => cexecs H cfg i {} Client_connect (fun l => (l.st, .panic)) l
+  disconnect := fun l => cexecs H cfg i {} Client_disconnect (fun l => (l.st, .panic)) l
 
 /-- `writeAll` is one `Write`, and a short write without an error is made an error: what `doWrite`'s status other than `ok`
 means to the callers (`writeAllThen`, `retWriteAll`) -/
@@ -20,8 +25,8 @@ theorem writeAll_shape : Gen.Client.writeAll = [.connWrite, .shortIsError, .retE
 def encOf (cfg : Cfg) (i : In) : Option Bytes := if cfg.requireAck && i.chunkErr then none else i.encoding
 
 theorem Client_Send_is_model (cfg : Cfg) (i : In) (s : St) :
-    runC cfg i (checkAckSem cfg i) Client_Send s = Tcp.send cfg s (encOf cfg i) i.chunk i.fault i.resp := by
-  simp only [runC, Client_Send, checkAckSem, Client_checkAck, cexecs, cexec, Tcp.send, encOf]
+    runC H cfg i (callees H cfg i) Client_Send s = Tcp.send cfg s (encOf cfg i) i.chunk i.fault i.resp := by
+  simp only [runC, Client_Send, callees, Client_checkAck, cexecs, cexec, Tcp.send, encOf]
   rcases hs : s.session with _ | ⟨id, tp⟩
   · simp
   · cases tp <;> cases hr : cfg.requireAck <;> cases hc : i.chunkErr <;> cases he : i.encoding <;> simp [hs] <;>
@@ -30,10 +35,50 @@ theorem Client_Send_is_model (cfg : Cfg) (i : In) (s : St) :
       (split <;> simp_all)
 
 theorem Client_SendRaw_is_model (cfg : Cfg) (i : In) (s : St) :
-    runC cfg i (checkAckSem cfg i) Client_SendRaw s = Tcp.sendRaw s i.raw i.fault := by
+    runC H cfg i (callees H cfg i) Client_SendRaw s = Tcp.sendRaw s i.raw i.fault := by
   simp only [runC, Client_SendRaw, cexecs, cexec, Tcp.sendRaw]
   rcases hs : s.session with _ | ⟨id, tp⟩
   · simp
   · cases tp <;> simp [hs]
+
+theorem Client_Connect_is_model (cfg : Cfg) (i : In) (s : St) :
+    runC H cfg i (callees H cfg i) Client_Connect s = step H cfg s (.connect i.dialOk i.closeErr) := by
+  simp only [runC, Client_Connect, callees, Client_connect, cexecs, cexec, step, Tcp.connect]
+  cases hs : s.session <;> cases hd : i.dialOk <;> cases hk : cfg.sharedKey <;> simp [St.emit]
+
+theorem Client_Disconnect_is_model (cfg : Cfg) (i : In) (s : St) :
+    runC H cfg i (callees H cfg i) Client_Disconnect s = step H cfg s .disconnect := by
+  rcases s with ⟨sess, conns, log⟩
+  simp only [runC, Client_Disconnect, callees, Client_disconnect, cexecs, cexec, step, Tcp.disconnect]
+  rcases sess with _ | ⟨id, tp⟩ <;> simp
+
+theorem Client_Reconnect_is_model (cfg : Cfg) (i : In) (s : St) :
+    runC H cfg i (callees H cfg i) Client_Reconnect s = step H cfg s (.reconnect i.dialOk i.closeErr) := by
+  simp only [runC, Client_Reconnect, callees, Client_connect, Client_disconnect, cexecs, cexec, step, Tcp.connect, Tcp.disconnect]
+  rcases hs : s.session with _ | ⟨id, tp⟩ <;> cases hd : i.dialOk <;> cases hk : cfg.sharedKey <;> simp [hs, St.emit]
+
+theorem Client_TransportPhase_is_model (cfg : Cfg) (i : In) (s : St) :
+    runC H cfg i (callees H cfg i) Client_TransportPhase s = step H cfg s .transportPhase := by
+  rcases s with ⟨sess, conns, log⟩
+  rcases sess with _ | ⟨id, tp⟩ <;> rfl
+
+theorem Client_Handshake_is_model (cfg : Cfg) (i : In) (s : St) :
+    runC H cfg i (callees H cfg i) Client_Handshake s = Tcp.handshake H cfg s i.helo i.salt i.pong i.fault := by
+  simp only [runC, Client_Handshake, cexecs, cexec, Tcp.handshake]
+  rcases hs : s.session with _ | ⟨id, tp⟩
+  · simp
+  · simp only [Option.isNone, Bool.false_eq_true, if_false]
+    cases hh : Helo.unmarshal .stream {} i.helo with
+    | err => simp
+    | panic w => simp
+    | ok h rest0 =>
+      rcases h with ⟨mt, opts⟩
+      cases opts with
+      | none => simp
+      | some ho =>
+        simp only [Option.bind, Option.isNone, Bool.false_eq_true, if_false, hs]
+        cases hw : (doWrite (pingMsg H cfg i.salt ho.nonce).marshal i.fault).2 <;> simp [hw, St.emit, hs] <;>
+        (cases hp : Pong.unmarshal .stream {} (rest0 ++ i.pong) <;> simp [hp, pongAccepted, validatePong, hexDigest]) <;>
+        (rename_i p _; cases ha : p.authResult <;> simp [ha]) <;> (split <;> simp_all)
 
 end FV.Tie
